@@ -1,6 +1,8 @@
 import EpModel.Lemmas.Builder
 import EpModel.Lemmas.BuilderChecksum
 import EpModel.Spec.Decode
+import EpModel.Lemmas.BuilderParse
+import EpModel.Props.C03
 /-
   C10 — PacketBuilder emits consistent, parseable packets of the announced size.
 
@@ -13,6 +15,7 @@ import EpModel.Spec.Decode
 -/
 namespace EpModel.Props.C10
 open EpModel EpModel.Codec EpModel.CodecNet EpModel.Builder EpModel.Checksum EpModel.Lemmas.Builder
+open EpModel.Lemmas.BuilderParse
 
 /-- accept ⇔ encodable, and the result is the closed form. -/
 theorem build_accepts (c : Cfg) (p : Bytes) (wf : c.WF) (enc : Encodable c p.length) :
@@ -273,18 +276,61 @@ theorem checksum_icmpv6 (h : Icmp6) (ip : Ipv6Header) (p : Bytes) (hs : ip.sourc
 
 /-! ### parsing the output
 
-Full statement (not proved here; checked on every explored case by the oracle, which runs
-`Spec.decode` on the implementation's bytes and compares with the configuration): strict
-decoding of the emitted bytes succeeds and yields the layers at the offsets of `build_layout`.
-What is proved (`build_parses_partial`): for the Ethernet II start the C08 decoder model recovers
-the configured addresses and the derived ether type and hands on exactly the remaining layers. -/
+`build_parses`: for every well-formed configuration whose build succeeds, strict wire-format decoding
+(`Spec.decode`, started where the configuration starts: Ethernet II, Linux SLL or IP) accepts the
+output and returns exactly the configured layers `expPacket c p.length` (EpModel.Lemmas.BuilderParse):
+the link window over the whole output, one `.vlan` extension per tag, the net layer (ARP; IPv4 with
+options and authentication header; IPv6 with every subset of hop-by-hop / destination options / routing /
+fragment / authentication / final destination options headers, walked in the order `set_next_headers`
+chains them) with its payload window, protocol number, length source and fragmentation flag, and the
+transport window (UDP by its length field, TCP with the header length from the data offset, ICMPv4,
+ICMPv6) - no transport layer behind ARP and in fragments.  Side conditions `ParseOk` (decidable, each
+one necessary for the statement as it stands):
+  * VLAN tags only behind Ethernet II, ARP only behind a link layer (all the typed steps offer);
+  * a payload written without transport header (`write` of the IP step with an ip number) must not be
+    announced by a number the decoder itself interprets (51 in IPv4; 0, 43, 44, 51, 60 in IPv6; 1, 6, 17,
+    58 unless the packet is a fragment) - what such a payload parses as is up to the payload;
+  * an ICMPv4 header with type 13 / 14 and code 0 (typed timestamp header or raw) must make a 20 byte
+    message: RFC 792 timestamp messages have a fixed size and strict slicing refuses any other, so
+    `.icmpv4(TimestampRequest(..))` with a non-empty payload builds a packet the crate's own
+    `SlicedPacket::from_*` rejects.
+Through C03 (`SlicedPacket` model = `Spec.decode` on every byte string) the same packets are what the
+model of the crate's strict slicing returns (`strict_slicing_accepts_*`).  The special cases below
+spell the returned `Packet` out.  Not covered: nothing of `Cfg` is left out; outside the statement are
+only the configurations excluded by `ParseOk`, and the lax / `PacketHeaders` decoders (C04, C05). -/
 
+/-- the statement asked for in DESIGN.md; proved below as `build_parses_full` (with `ParseOk`, without
+    which it is false: see the doc comment above). -/
 def build_parses_full_statement : Prop :=
-  ∀ (c : Cfg) (p out : Bytes), c.WF → build c p = .ok out →
+  ∀ (c : Cfg) (p out : Bytes), c.WF → build c p = .ok out → ParseOk c p.length →
     (∀ h, c.link = some (.eth2 h) → ∃ pkt, Spec.decode .eth (Dec.memOf out) out.length = .ok pkt ∧
       pkt.link = some (Dec.LinkR.eth2 ⟨0, out.length⟩)) ∧
     (∀ s, c.link = some (.sll s) → ∃ pkt, Spec.decode .sll (Dec.memOf out) out.length = .ok pkt) ∧
     (c.link = none → (∀ a, c.net ≠ .arp a) → ∃ pkt, Spec.decode .ip (Dec.memOf out) out.length = .ok pkt)
+
+/-- strict decoding accepts every built packet and recovers the configured layers. -/
+theorem build_parses (c : Cfg) (p out : Bytes) (wf : c.WF) (hb : build c p = .ok out)
+    (ok : ParseOk c p.length) :
+    Spec.decode (startOf c) (Dec.memOf out) out.length = .ok (expPacket c p.length) := by
+  obtain ⟨enc, _, _, _⟩ := build_layout c p out wf hb
+  rw [build_ok c p wf enc] at hb
+  cases hb
+  exact decode_buildOk c p wf enc ok
+
+theorem build_parses_full : build_parses_full_statement := by
+  intro c p out wf hb ok
+  have h := build_parses c p out wf hb ok
+  have hs := build_size c p out wf hb
+  refine ⟨?_, ?_, ?_⟩
+  · intro e hl
+    simp only [startOf, hl] at h
+    exact ⟨_, h, by simp [expPacket, hl, hs]⟩
+  · intro s hl
+    simp only [startOf, hl] at h
+    exact ⟨_, h⟩
+  · intro hl _
+    simp only [startOf, hl] at h
+    exact ⟨_, h⟩
 
 theorem build_parses_partial (c : Cfg) (p out : Bytes) (h : Eth2) (wf : c.WF)
     (hl : c.link = some (.eth2 h)) (hb : build c p = .ok out) :
@@ -303,6 +349,56 @@ theorem build_parses_partial (c : Cfg) (p out : Bytes) (h : Eth2) (wf : c.WF)
     (outVlan c ++ outNet c p.length ++ tpBytes (outTpHeader c p) ++ p) hw
   rw [hout]
   simpa [outLink, outLinkOf, hl, List.append_assoc] using this
+
+
+/-! #### what the crate's strict slicing (model of C03) returns for built packets -/
+
+theorem refines_ok {m : Except Dec.PErr Dec.Packet} {pkt : Dec.Packet}
+    (h : EpModel.Props.C03.Refines m (.ok pkt)) : m = .ok pkt := by
+  cases m with
+  | error e => exact h.elim
+  | ok q => simp only [EpModel.Props.C03.Refines] at h; rw [h]
+
+/-- `SlicedPacket::from_ethernet` (model) accepts every packet built behind `ethernet2` and returns
+    the configured layers. -/
+theorem strict_slicing_accepts_ethernet (c : Cfg) (p out : Bytes) (h : Eth2) (wf : c.WF)
+    (hl : c.link = some (.eth2 h)) (hb : build c p = .ok out) (ok : ParseOk c p.length) :
+    Dec.slicedFromEthernet (Dec.memOf out) out.length = .ok (expPacket c p.length) := by
+  have hd := build_parses c p out wf hb ok
+  simp only [startOf, hl] at hd
+  have r := EpModel.Props.C03.strict_from_ethernet_matches_wire_formats out
+  rw [hd] at r
+  exact refines_ok r
+
+/-- `SlicedPacket::from_linux_sll` (model) accepts every packet built behind `linux_sll`. -/
+theorem strict_slicing_accepts_linux_sll (c : Cfg) (p out : Bytes) (s : Sll) (wf : c.WF)
+    (hl : c.link = some (.sll s)) (hb : build c p = .ok out) (ok : ParseOk c p.length) :
+    Dec.slicedFromLinuxSll (Dec.memOf out) out.length = .ok (expPacket c p.length) := by
+  have hd := build_parses c p out wf hb ok
+  simp only [startOf, hl] at hd
+  have r := EpModel.Props.C03.strict_from_linux_sll_matches_wire_formats out
+  rw [hd] at r
+  exact refines_ok r
+
+/-- `SlicedPacket::from_ip` (model) accepts every packet built without link layer. -/
+theorem strict_slicing_accepts_ip (c : Cfg) (p out : Bytes) (wf : c.WF)
+    (hl : c.link = none) (hb : build c p = .ok out) (ok : ParseOk c p.length) :
+    Dec.slicedFromIp (Dec.memOf out) out.length = .ok (expPacket c p.length) := by
+  have hd := build_parses c p out wf hb ok
+  simp only [startOf, hl] at hd
+  have r := EpModel.Props.C03.strict_from_ip_matches_wire_formats out
+  have hs := build_size c p out wf hb
+  have hnc : ¬ (Dec.memOf out 0 / 16 = 4 ∧ 0 < out.length ∧ out.length < 20) := by
+    intro ⟨h4, _, h20⟩
+    -- an IPv4 packet has at least 20 bytes, and an IPv6 packet does not start with the nibble 4
+    rw [hs, size_eq] at h20
+    cases hnet : c.net with
+    | arp a => have := ok.2; simp [NetOk, hnet, hl] at this
+    | ipv4 ip e => simp [netLen, hnet] at h20; omega
+    | ipv6 ip e => simp [netLen, hnet] at h20; omega
+  simp only [hnc, if_false] at r
+  rw [hd] at r
+  exact refines_ok r
 
 /-! ### non-vacuity: concrete configurations satisfy the hypotheses (and the negations) -/
 
